@@ -187,6 +187,8 @@ class LowRankInitialize(Initialize):
 
         if self.partition is None:
             self.partition = _default_partition(self.num_qubits)
+        else:
+            self.partition = sorted(self.partition)
 
         complement = sorted(set(range(self.num_qubits)).difference(set(self.partition)))
 
